@@ -74,7 +74,9 @@ def make_renderer(handled, tag):
 
 def elements(db):
     """kind -> list of (element, attached?) from a parsed database"""
-    t1, t2 = db.tables[0], db.tables[1]
+    # by name, not by position: where a table stands in db.tables is not this check's business (and a harness that trips over
+    # a reordered list would hide the change that reordered it)
+    t1 = next(t for t in db.tables if t.name == 't1')
     return {
         'table': t1, 'column': t1.columns[0], 'index': t1.indexes[0], 'enum': db.enums[0],
         'enum_item': db.enums[0].items[1], 'reference': db.refs[-1], 'note': t1.note,
@@ -232,6 +234,12 @@ def join_job(job):
     seed, wild = job
     rng = random.Random(seed)
     spec = GD.gen_spec(rng, wild=wild, max_tables=4)
+    if rng.random() < 0.12:
+        # a database without tables (enums, sticky notes, a project only): its renderings are still the join of its elements'
+        spec['tables'], spec['refs'], spec['groups'] = [], [], []
+        if not spec['enums']:
+            spec['enums'] = [{'name': 'only_enum', 'schema': 'public', 'comment': None,
+                              'items': [{'name': 'a', 'note': '', 'comment': None}, {'name': 'b', 'note': 'n', 'comment': None}]}]
     try:
         db, hd = GD.build(spec)
         before = O.dump_db(db)
